@@ -249,6 +249,9 @@ func run(t *rapid.T, prop string) {
 		b.MaxRows = 300
 	}
 	b.SmallDomain = rapid.IntRange(0, 4).Draw(t, "smalldomain") != 0
+	if !core.Thorough() && gen.Rare(t, "bigframe", 60) {
+		b.MinRows, b.MaxRows = 100, 700 // several growth steps of the table, also in the quick tier
+	}
 	fs := gen.DrawFrame(t, b)
 	scr := gen.DrawScramble(t, fs)
 	tr := &trace{Frame: fs, Scramble: scr}
